@@ -266,7 +266,7 @@ func main() {
 		}
 		var coq string
 		var nt bool
-		ok := w.Guard(c, 5*time.Second, func() {
+		ok := w.Guard(c, 30*time.Second, func() {
 			switch c.Kind {
 			case "side":
 				s := &scriptStream{in: toBytes(c.Inp), frag: c.Frag}
@@ -472,7 +472,7 @@ func main() {
 	// expected input (insertions and deletions shift the stream)
 	nRandom := 500
 	if cfg.Thorough() {
-		nRandom = 20000
+		nRandom = 8000
 	}
 	for i := 0; i < nRandom; i++ {
 		side := r.Intn(2)
